@@ -154,6 +154,14 @@ void run(const Case& c) {
   }
   w.val       = (uint64_t*)gsched_arena_alloc(sizeof(uint64_t) * fe::MAXOBJ);
   w.stamp     = (uint64_t*)gsched_arena_alloc(sizeof(uint64_t) * fe::MAXOBJ);
+  w.cell      = (uint64_t*)gsched_arena_alloc(sizeof(uint64_t) * (w.B.items.size() + 1));
+  for (int i = 0; i < P.n_initial; ++i) {
+    fe::Quiet q;
+    int ci = w.B.index.find(P.root(i).id)->second;
+    gsched_quiet(-1);
+    w.cell[ci] = P.root(i).id;
+    gsched_quiet(1);
+  }
   unsigned nt = galois::setActiveThreads((unsigned)P.threads);
   P.threads   = (int)nt;
   w.check_c02 = P.conflicts && nt > 1;
